@@ -583,11 +583,15 @@ pub fn classes(tier: Tier) -> Vec<(&'static str, Vec<G>, Vec<char>, usize)> {
     k02.extend(en::k02_sep(false));
     // the K02 templates end in a to_slice rest capture, which this interpreter does not need: strip it
     let k02: Vec<G> = k02.into_iter().map(|g| if let G::Then(a, _) = g { *a } else { g }).filter(supported).collect();
+    let k02_long: Vec<G> = k02.iter().step_by(11).cloned().collect();
     vec![
         ("k01", en::k01().upto(if q { 3 } else { 4 }).into_iter().filter(supported).collect(), vec!['a', 'b', 'c'], 4),
         ("kext-recovery", en::k_ext().upto(if q { 3 } else { 4 }).into_iter().filter(supported).collect(), vec!['a', 'b', 'c'], 4),
-        ("k02-sinks", k02, vec!['a', 'b', ','], if q { 4 } else { 5 }),
+        ("k02-sinks", k02.clone(), vec!['a', 'b', ','], if q { 4 } else { 5 }),
         ("kgroup-deep", k_group().upto(if q { 4 } else { 5 }), vec!['a', 'b', ','], 4),
+        // long runs: sinks that buffer their operands (folds from the right, collections that grow) past any small
+        // inline capacity - every 11th template (all sinks, bounds and flags still occur) on inputs of up to 11 tokens
+        ("k02-long-runs", k02_long, vec!['a', ','], if q { 11 } else { 13 }),
     ]
 }
 
@@ -733,6 +737,8 @@ pub fn unit_names() -> Vec<&'static str> {
         "drops-kgroup-deep@box2-deque",
         "drops-k02-sinks@linkedlist",
         "drops-k02-sinks@refcell",
+        "drops-k02-long-runs",
+        "drops-zst-k02-long-runs",
     ]
 }
 
